@@ -54,7 +54,7 @@ def laws_notebook(ctx, b, x, a, md):
         ctx.case(name + canon(b) + canon(x) + json.dumps(a.key()), name != 'identity' and canon(b) != canon(x))
         data = {'kind': 'law', 'law': name, 'b': enc(b), 'x': enc(x), 'strategy': a.key(), 'helper': md}
         if res[0] != 'ok':
-            ctx.violation('%s merge raised %s under %s' % (name, res[2], a.key()), dict(data, kind='law-raises'))
+            ctx.violation('%s merge raised %s under %s' % (name, res[2], a.key()), dict(data, kind='merge-raises', site=mergelib.LAST_ERROR_SITE[0]))
             continue
         if mergelib.has_conflict(res[2]):
             ctx.violation('%s merge reports a conflict under %s' % (name, a.key()), data)
